@@ -550,8 +550,8 @@ def work_quartic(chunk):
 
 
 def work_buffered(chunk):
-    """f returns its value in a length-1 array - and hands back the SAME array object on every call (a preallocated
-    result buffer), or a read-only one: the results must be bit-identical to those for a fresh array per call."""
+    """f returns its value in a length-1 array - a fresh one, the SAME array object on every call (a preallocated result
+    buffer), or a read-only one: Hessian / Hessdiag of the quartic must match the closed form in every case."""
     import numdifftools as nd
     acc = fw.Acc()
     for n, method in chunk:
@@ -573,29 +573,33 @@ def work_buffered(chunk):
         for entry, kw in (('Hessian', {}), ('Hessdiag', dict(order=2)), ('Hessdiag', dict(order=4))):
             if method == 'central2' and entry == 'Hessdiag' and False:
                 continue
-            res = {}
+            want = hess(x) if entry == 'Hessian' else np.diag(hess(x))
+            allow = 1e-6 * size(x)
             for name, g in (('fresh', fresh), ('buffered', buffered), ('readonly', readonly)):
+                if name == 'buffered' and method not in REAL_STEP:
+                    continue      # (a real result buffer cannot hold the complex / bicomplex values of the complex-step methods)
                 fw.fresh_library_state()
+                prob = None
                 try:
                     with warnings.catch_warnings():
                         warnings.simplefilter('ignore')
                         with np.errstate(all='ignore'):
                             val, info = getattr(nd, entry)(g, method=method, full_output=True, **kw)(x)
-                    res[name] = fw.obs((val, info.error_estimate, info.f_value))
+                    val = np.asarray(val)
+                    err = float(np.max(np.abs(val - want))) if val.shape == want.shape else float('inf')
+                    if not err <= allow:
+                        prob = 'max error %.3g > %.3g (got %r, closed form %r)' % (err, allow, val.tolist(), want.tolist())
+                    elif not np.allclose(np.ravel(info.f_value), f(x), rtol=1e-12, atol=0):
+                        prob = 'info.f_value %r, f(x) = %r' % (np.ravel(info.f_value).tolist(), f(x))
                 except Exception as e:      # noqa: BLE001
-                    res[name] = ('raised', type(e).__name__, str(e)[:80])
-            for name in ('buffered', 'readonly'):
-                if name == 'buffered' and method not in REAL_STEP:
-                    continue      # (a real result buffer cannot hold the complex / bicomplex values of the complex-step methods)
-                same = res[name] == res['fresh']
+                    prob = 'raised %s: %s' % (type(e).__name__, str(e)[:80])
                 acc.case(('outputform', n, method, entry, kw.get('order'), name), nontrivial=True, cell='output-form/%s' % name,
-                         outcome=same)
-                if not same:
+                         outcome=prob is None)
+                if prob:
                     acc.violation('C04:%s:length-1-array-%s:%s' % (entry, name, method),
                                   dict(kind='outputform', n=n, method=method),
-                                  '%s(f, method=%r%s)(%r), f returning a %s length-1 array: %s; with a fresh array per call: %s'
-                                  % (entry, method, ''.join(', %s=%r' % kv for kv in kw.items()), x.tolist(), name,
-                                     str(res[name])[:160], str(res['fresh'])[:160]), n)
+                                  '%s(f, method=%r%s)(%r), f returning a %s length-1 array: %s'
+                                  % (entry, method, ''.join(', %s=%r' % kv for kv in kw.items()), x.tolist(), name, prob), n)
     fw.fresh_library_state()
     return acc
 
